@@ -344,6 +344,112 @@ fn chunk_op(w: &Watch, op: &str, body: &[u8], cutspec: &str) -> String {
     format!("one={} wl={} wlc={} raw={} rawc={}", one, wl, wlc, raw, rawc)
 }
 
+// ---------------------------------------------------------------------- sequences through ONE decoder instance
+
+/// Frames back to back through one `WithLenRecognizerDecoder`, driven as `FramedRead` does: append a piece, call
+/// `decode` until it says `None` (errors do not end the stream: the decoder itself skips the rest of the bad frame).
+/// Every result, in order.
+fn wl_seq(docs: &[Vec<u8>], cuts: &[usize]) -> Vec<String> {
+    let mut stream = vec![];
+    for d in docs {
+        stream.extend_from_slice(&(d.len() as u64).to_be_bytes());
+        stream.extend_from_slice(d);
+    }
+    let mut dec = WithLenRecognizerDecoder::new(Value::make_recognizer());
+    let mut buf = BytesMut::new();
+    let mut out = vec![];
+    for p in split_at_cuts(&stream, cuts) {
+        buf.put_slice(p);
+        let mut guard = buf.len() / 8 + 2;
+        loop {
+            match dec.decode(&mut buf) {
+                Ok(Some(v)) => out.push(format!("ok:{}", venc(&v))),
+                Ok(None) => break,
+                Err(_) => out.push("err".into()),
+            }
+            guard -= 1;
+            if guard == 0 {
+                out.push("fuel".into());
+                break;
+            }
+        }
+    }
+    out
+}
+
+/// Documents one after the other through one bare `RecognizerDecoder`, each with a buffer of its own (`decode` per
+/// piece, `decode_eof` at the end of the document, as `swimos_messages`' request decoder drives it; whatever is left of
+/// a document after its result is dropped by the framing layer).  No explicit `reset()`: `decode`/`decode_eof` are
+/// documented to leave a fresh decoder after a value or an error.  `cuts` index the concatenation of the documents.
+fn bare_seq(docs: &[Vec<u8>], cuts: &[usize]) -> Vec<String> {
+    let mut dec = RecognizerDecoder::new(Value::make_recognizer());
+    let mut off = 0;
+    let mut out = vec![];
+    for d in docs {
+        let local: Vec<usize> = cuts.iter().filter(|&&c| c > off && c < off + d.len()).map(|c| c - off).collect();
+        out.push(drive(&mut dec, &split_at_cuts(d, &local), true));
+        off += d.len();
+    }
+    out
+}
+
+fn enc_list(l: &[String]) -> String {
+    if l.is_empty() {
+        "-".into()
+    } else {
+        l.join("|")
+    }
+}
+
+fn seq_op(w: &Watch, op: &str, docs: &[Vec<u8>], cutspec: &str) -> String {
+    let g = |f: &dyn Fn() -> Vec<String>| -> Vec<String> { guarded(w, op, f).unwrap_or_else(|_| vec!["panic".into()]) };
+    let valid: Vec<bool> = docs.iter().map(|d| std::str::from_utf8(d).is_ok()).collect();
+    let one: Vec<String> = docs
+        .iter()
+        .map(|d| match std::str::from_utf8(d) {
+            Ok(s) => guarded(w, op, || res_of(parse_one(s))).unwrap_or_else(|_| "panic".into()),
+            Err(_) => "err".into(),
+        })
+        .collect();
+    // a cut may legitimately change the verdict on a document that is not UTF-8: only the other positions count
+    let differs = |a: &[String], b: &[String]| a.len() != b.len() || (0..a.len()).any(|i| valid.get(i).copied().unwrap_or(true) && a[i] != b[i]);
+    let wl = g(&|| wl_seq(docs, &[]));
+    let raw = g(&|| bare_seq(docs, &[]));
+    let total: usize = docs.iter().map(|d| d.len()).sum();
+    let (mut wlc, mut rawc) = ("same".to_string(), "same".to_string());
+    if cutspec == "all" {
+        for k in 1..total + 8 * docs.len() {
+            let r = g(&|| wl_seq(docs, &[k]));
+            if differs(&r, &wl) {
+                wlc = format!("cut{}:{}", k, enc_list(&r));
+                break;
+            }
+        }
+        for k in 1..total {
+            let r = g(&|| bare_seq(docs, &[k]));
+            if differs(&r, &raw) {
+                rawc = format!("cut{}:{}", k, enc_list(&r));
+                break;
+            }
+        }
+    } else {
+        let cuts: Vec<usize> = cutspec.split(',').filter_map(|x| x.parse().ok()).collect();
+        let r = g(&|| wl_seq(docs, &cuts));
+        if differs(&r, &wl) {
+            wlc = format!("cut{}:{}", cuts.first().copied().unwrap_or(0), enc_list(&r));
+        }
+        let r = g(&|| bare_seq(docs, &cuts));
+        if differs(&r, &raw) {
+            rawc = format!("cut{}:{}", cuts.first().copied().unwrap_or(0), enc_list(&r));
+        }
+    }
+    format!("one={} wl={} wlc={} raw={} rawc={}", enc_list(&one), enc_list(&wl), wlc, enc_list(&raw), rawc)
+}
+
+fn seq_hex(docs: &[Vec<u8>]) -> String {
+    docs.iter().map(|d| hex(d)).collect::<Vec<_>>().join(".")
+}
+
 // ------------------------------------------------------------------------------------------- typed battery
 
 #[derive(Debug, Clone, PartialEq, Form)]
@@ -1080,9 +1186,103 @@ fn truncated_text(rng: &mut Rng, model_safe: bool) -> String {
     s
 }
 
+/// 2–4 short documents for one decoder instance, malformed ones in any position.  `model_safe`: only what the model
+/// is an oracle for (grammar documents, their truncations, a stray closing character, one byte that is not UTF-8).
+fn seq_docs(rng: &mut Rng, model_safe: bool) -> Vec<Vec<u8>> {
+    const BAD: &[&str] = &["{a:1,]b:2}", "@a(]", "{,)}", "{a:1,b:", "@tag{b:2,c:{3,4}", ")", "{1 2}", "@a(1}", "\"x\\q\"", "{a::1}", "0x", "%A=", "{a:1}}", "@", "{\"k\":@}", "1e", "@a @"];
+    const GOOD: &[&str] = &["@tag{b:2,c:{3,4}}", "b:2}", "12345", "abc", "-1", "{a:1,b:2}", "@a(1,2) {x:\"y\"}", "", " ", "\"s\"", "@a", "{}", "{a:}", "1.5", "%AAEC", "true", "@a{1}@b", "x:1"];
+    let cfg = VCfg { bad_attr_names: true, nonfinite: false, risky_shapes: model_safe };
+    let n = 2 + rng.below(3) as usize;
+    // `pristine = false`: the document is going to be edited; a printed float (up to 17 digits) cut or split by the edit
+    // is no longer a shortest decimal, i.e. outside the model's floats: take grammar documents (<= 15 digits) then
+    let short_good = |rng: &mut Rng, pristine: bool| -> Vec<u8> {
+        for _ in 0..6 {
+            let t = match if model_safe && !pristine { 0 } else { rng.below(3) } {
+                0 => gen_grammar_text(rng),
+                1 => print_style(*rng.pick(&['S', 'C', 'P']), &gen_value(rng, 2, cfg)),
+                _ => print_style('C', &gen_prim(rng, cfg)),
+            };
+            if t.len() <= 40 {
+                return t.into_bytes();
+            }
+        }
+        (*rng.pick(GOOD)).as_bytes().to_vec()
+    };
+    let mut docs: Vec<Vec<u8>> = vec![];
+    for _ in 0..n {
+        let d: Vec<u8> = match rng.below(12) {
+            0..=2 => short_good(rng, true),
+            3 => (*rng.pick(GOOD)).as_bytes().to_vec(),
+            4..=5 => (*rng.pick(BAD)).as_bytes().to_vec(),
+            6..=7 => {
+                // a stray character somewhere inside: the error is seen before the end of the document
+                let mut d = short_good(rng, false);
+                let at = rng.below(d.len() as u64 + 1) as usize;
+                d.insert(at, *rng.pick(&[b']', b')', b'}', b'#', b':', b'@', b'"', b'\\']));
+                d
+            }
+            8 => {
+                let t = truncated_text(rng, model_safe);
+                let mut b = t.into_bytes();
+                b.truncate(40);
+                while std::str::from_utf8(&b).is_err() {
+                    b.pop();
+                }
+                b
+            }
+            9 => {
+                // not UTF-8 from some point on (or a multi-byte character cut short at the end)
+                let mut d = short_good(rng, false);
+                if rng.chance(1, 3) {
+                    d.extend_from_slice("é".as_bytes());
+                    d.pop();
+                } else {
+                    let at = rng.below(d.len() as u64 + 1) as usize;
+                    d.insert(at, *rng.pick(&[0xffu8, 0xc0, 0x80, 0xf8]));
+                }
+                d
+            }
+            _ => {
+                if model_safe {
+                    let mut d = short_good(rng, false);
+                    d.extend_from_slice(*rng.pick(&[&b" "[..], b"}", b"\n", b",", b" 2", "é".as_bytes()]));
+                    d
+                } else {
+                    let base = short_good(rng, false);
+                    let mut m = mutate(rng, &base);
+                    m.truncate(48);
+                    m
+                }
+            }
+        };
+        docs.push(d);
+    }
+    docs
+}
+
+fn seq_case(rng: &mut Rng, w: &Watch, t: &Tr, model_safe: bool) {
+    let docs = seq_docs(rng, model_safe);
+    let total: usize = docs.iter().map(|d| d.len() + 8).sum();
+    let op = format!("seq {} all", seq_hex(&docs));
+    let o = seq_op(w, &op, &docs, "all");
+    t.op(op, o);
+    if total >= 3 {
+        let mut cuts: Vec<usize> = (0..2 + rng.below(5)).map(|_| 1 + rng.below(total as u64 - 1) as usize).collect();
+        cuts.sort();
+        cuts.dedup();
+        let cs = cuts.iter().map(|c| c.to_string()).collect::<Vec<_>>().join(",");
+        let op = format!("seq {} {}", seq_hex(&docs), cs);
+        let o = seq_op(w, &op, &docs, &cs);
+        t.op(op, o);
+    }
+}
+
 /// `chunksm`: as `chunk_case`, restricted to documents on which the model is an oracle (valid UTF-8, floats inside the
 /// model's exact-decimal set, no byte-level mutation): the five fields are also compared with the decoder model.
 fn chunkm_case(rng: &mut Rng, w: &Watch, t: &Tr) {
+    if rng.chance(1, 3) {
+        return seq_case(rng, w, t, true);
+    }
     let cfg = VCfg { bad_attr_names: true, nonfinite: false, risky_shapes: true };
     let base: Vec<u8> = match rng.below(10) {
         0..=3 => gen_grammar_text(rng).into_bytes(),
@@ -1117,6 +1317,9 @@ fn chunkm_case(rng: &mut Rng, w: &Watch, t: &Tr) {
 }
 
 fn chunk_case(rng: &mut Rng, w: &Watch, t: &Tr) {
+    if rng.chance(1, 3) {
+        return seq_case(rng, w, t, false);
+    }
     let cfg = VCfg { bad_attr_names: false, nonfinite: false, risky_shapes: false };
     let base: Vec<u8> = match rng.below(12) {
         10 | 11 => truncated_text(rng, false).into_bytes(),
@@ -1192,7 +1395,7 @@ fn is_full() -> bool {
 fn exec(w: &Watch, t: &Tr, op: &str) {
     let parts: Vec<&str> = op.split_whitespace().collect();
     let out = match parts.as_slice() {
-        ["chunk", ..] | ["typed", ..] if !is_full() => "skipped".into(),
+        ["chunk", ..] | ["typed", ..] | ["seq", ..] if !is_full() => "skipped".into(),
         ["print", s, e] => match vdec(e) {
             Some(v) => {
                 let st = s.chars().next().unwrap();
@@ -1210,6 +1413,10 @@ fn exec(w: &Watch, t: &Tr, op: &str) {
         },
         ["chunk", h, cs] => match unhex(h) {
             Some(b) => chunk_op(w, op, &b, cs),
+            None => "bad-op".into(),
+        },
+        ["seq", hs, cs] => match hs.split('.').map(unhex).collect::<Option<Vec<Vec<u8>>>>() {
+            Some(docs) => seq_op(w, op, &docs, cs),
             None => "bad-op".into(),
         },
         ["typed", kind, h] => match unhex(h).and_then(|b| String::from_utf8(b).ok()) {
